@@ -332,4 +332,253 @@ theorem C28_counterexample_cross_delete :
       hasRef s2 2 1 47 = true ∧ hasRef (deleteRefWith true s2 1 2 47).1 2 1 47 = false := by
   exact ⟨_, _, rfl, rfl, by decide, by decide⟩
 
+/-! ### Filters with subtypes (`reference_type_matches`) -/
+
+/-- `b` is `a` or a direct or indirect subtype of `a` according to the HasSubtype references held -/
+inductive Sub (s : Refs) : Nat → Nat → Prop
+  | refl (a : Nat) : Sub s a a
+  | head {a b c : Nat} : R s a hasSubtype b → Sub s b c → Sub s a c
+
+theorem mem_subtypes (s : Refs) (cur y : Nat) (l : List (Nat × Nat)) (hg : s.fwd.get cur = some l) :
+    y ∈ (l.filter (fun r => r.1 == hasSubtype)).map (fun r => r.2) ↔ R s cur hasSubtype y := by
+  unfold R fwdL
+  rw [hg]
+  simp only [List.mem_map, List.mem_filter, Option.getD_some]
+  constructor
+  · rintro ⟨⟨t, y'⟩, ⟨hm, ht⟩, rfl⟩
+    simp at ht; subst ht; exact hm
+  · intro hm; exact ⟨(hasSubtype, y), ⟨hm, by simp⟩, rfl⟩
+
+/-- the walk of `reference_type_matches` answers `true` only for a subtype … -/
+theorem subtypeSearch_sound (s : Refs) (sub : Nat) : ∀ fuel stack,
+    subtypeSearch s sub fuel stack = some true → ∃ c ∈ stack, Sub s c sub := by
+  intro fuel
+  induction fuel with
+  | zero => intro stack h; simp [subtypeSearch] at h
+  | succ fuel ih =>
+    intro stack h
+    cases stack with
+    | nil => simp [subtypeSearch] at h
+    | cons cur rest =>
+      unfold subtypeSearch at h
+      split at h
+      · rename_i he; exact ⟨cur, List.mem_cons_self, he ▸ Sub.refl _⟩
+      · cases hg : s.fwd.get cur with
+        | none =>
+          rw [hg] at h
+          obtain ⟨c, hc, hs⟩ := ih _ h
+          exact ⟨c, List.mem_cons_of_mem _ hc, hs⟩
+        | some l =>
+          rw [hg] at h
+          simp only [] at h
+          split at h
+          · rename_i hc
+            have : sub ∈ (l.filter (fun r => r.1 == hasSubtype)).map (fun r => r.2) := by simpa using hc
+            exact ⟨cur, List.mem_cons_self, Sub.head ((mem_subtypes s cur sub l hg).1 this) (Sub.refl _)⟩
+          · obtain ⟨c, hc, hs⟩ := ih _ h
+            rcases List.mem_append.1 hc with hc | hc
+            · have hc' : c ∈ (l.filter (fun r => r.1 == hasSubtype)).map (fun r => r.2) := by
+                simpa using hc
+              exact ⟨cur, List.mem_cons_self, Sub.head ((mem_subtypes s cur c l hg).1 hc') hs⟩
+            · exact ⟨c, List.mem_cons_of_mem _ hc, hs⟩
+
+/-- … and `false` only when nothing on the stack has it as a subtype -/
+theorem subtypeSearch_complete (s : Refs) (sub : Nat) : ∀ fuel stack,
+    subtypeSearch s sub fuel stack = some false → ∀ c ∈ stack, ¬ Sub s c sub := by
+  intro fuel
+  induction fuel with
+  | zero => intro stack h; simp [subtypeSearch] at h
+  | succ fuel ih =>
+    intro stack h
+    cases stack with
+    | nil => intro c hc; cases hc
+    | cons cur rest =>
+      unfold subtypeSearch at h
+      split at h
+      · cases h
+      · rename_i hne
+        cases hg : s.fwd.get cur with
+        | none =>
+          rw [hg] at h
+          have hrest := ih _ h
+          intro c hc
+          cases hc with
+          | head =>
+            intro hs
+            cases hs with
+            | refl => exact hne rfl
+            | head hr _ => simp [R, fwdL, hg] at hr
+          | tail _ hc => exact hrest c hc
+        | some l =>
+          rw [hg] at h
+          simp only [] at h
+          split at h
+          · cases h
+          · have hall := ih _ h
+            intro c hc
+            cases hc with
+            | head =>
+              intro hs
+              cases hs with
+              | refl => exact hne rfl
+              | head hr hs' =>
+                rename_i b
+                have hb : b ∈ (l.filter (fun r => r.1 == hasSubtype)).map (fun r => r.2) :=
+                  (mem_subtypes s cur b l hg).2 hr
+                exact hall b (List.mem_append_left _ (by simpa using hb)) hs'
+            | tail _ hc => exact hall c (List.mem_append_right _ hc)
+
+/-- what a reference filter asks of the type `t` of a reference -/
+def Matches (s : Refs) (ty : Nat) (incl : Bool) (t : Nat) : Prop :=
+  if incl = true then Sub s ty t else ty = t
+
+/-- `reference_type_matches`, whenever the walk returns -/
+theorem typeMatches_spec (s : Refs) (fuel ty sub : Nat) (incl b : Bool)
+    (h : typeMatches s fuel ty sub incl = some b) : b = true ↔ Matches s ty incl sub := by
+  unfold typeMatches at h
+  unfold Matches
+  split at h
+  · rename_i he; cases h; subst he; simp; intro _; exact Sub.refl _
+  · rename_i hne
+    cases incl with
+    | false => simp at h; subst h; simp [hne]
+    | true =>
+      simp only [if_true] at h ⊢
+      cases b with
+      | true =>
+        obtain ⟨c, hc, hs⟩ := subtypeSearch_sound s sub fuel _ h
+        simp at hc; subst hc; simp [hs]
+      | false =>
+        have := subtypeSearch_complete s sub fuel _ h ty List.mem_cons_self
+        simp [this]
+
+theorem filterByType_spec (s : Refs) (fuel ty : Nat) (incl : Bool) :
+    ∀ (l out : List (Nat × Nat)), filterByType s fuel (some (ty, incl)) l = some out →
+      ∀ r, r ∈ out ↔ (r ∈ l ∧ Matches s ty incl r.1) := by
+  intro l
+  induction l with
+  | nil => intro out h; simp [filterByType] at h; subst h; simp
+  | cons x rest ih =>
+    intro out h
+    unfold filterByType at h
+    simp only [] at h
+    cases hm : typeMatches s fuel ty x.1 incl with
+    | none => rw [hm] at h; simp at h
+    | some b =>
+      cases hr : filterByType s fuel (some (ty, incl)) rest with
+      | none => rw [hm, hr] at h; cases b <;> simp at h
+      | some out' =>
+        rw [hm, hr] at h
+        have hspec := typeMatches_spec s fuel ty x.1 incl b hm
+        have ih' := ih out' hr
+        intro r
+        cases b with
+        | true =>
+          simp only [Option.some.injEq] at h; subst h
+          have hx : Matches s ty incl x.1 := hspec.1 rfl
+          rw [List.mem_cons, ih', List.mem_cons]
+          constructor
+          · rintro (rfl | ⟨h1, h2⟩)
+            · exact ⟨Or.inl rfl, hx⟩
+            · exact ⟨Or.inr h1, h2⟩
+          · rintro ⟨rfl | h1, h2⟩
+            · exact Or.inl rfl
+            · exact Or.inr ⟨h1, h2⟩
+        | false =>
+          simp only [Option.some.injEq] at h; subst h
+          have hx : ¬ Matches s ty incl x.1 := fun hmm => by have := hspec.2 hmm; cases this
+          rw [ih', List.mem_cons]
+          constructor
+          · rintro ⟨h1, h2⟩; exact ⟨Or.inr h1, h2⟩
+          · rintro ⟨rfl | h1, h2⟩
+            · exact absurd h2 hx
+            · exact ⟨h1, h2⟩
+
+/-- **`find_references` with any type filter** (exact or with subtypes): whenever the subtype walk
+returns, the result is exactly the node's references whose type the filter admits.  Partial: that the
+walk returns is not proved — it does not on a HasSubtype cycle that misses the type (C33). -/
+theorem findRefs_filtered_partial (s : Refs) (fuel a ty : Nat) (incl : Bool)
+    (r : Option (List (Nat × Nat))) (h : findRefs s fuel a (some (ty, incl)) = some r) :
+    ∀ t b, (t, b) ∈ found r ↔ (R s a t b ∧ Matches s ty incl t) := by
+  unfold findRefs at h
+  unfold R fwdL
+  cases hg : s.fwd.get a with
+  | none => rw [hg] at h; cases h; simp [found]
+  | some l =>
+    rw [hg] at h
+    simp only [] at h
+    cases hf : filterByType s fuel (some (ty, incl)) l with
+    | none => rw [hf] at h; cases h
+    | some out =>
+      rw [hf] at h
+      simp only [Option.some.injEq] at h; subst h
+      intro t b
+      rw [found_ite]
+      exact filterByType_spec s fuel ty incl l out hf (t, b)
+
+theorem findInvAux_spec (s : Refs) (fuel b ty : Nat) (incl : Bool) :
+    ∀ (srcs : List Nat) (out : List (Nat × Nat)),
+      findInvAux s fuel b (some (ty, incl)) srcs = some out →
+      ∀ t a, (t, a) ∈ out ↔ (a ∈ srcs ∧ R s a t b ∧ Matches s ty incl t) := by
+  intro srcs
+  induction srcs with
+  | nil => intro out h; simp [findInvAux] at h; subst h; simp
+  | cons src rest ih =>
+    intro out h
+    unfold findInvAux at h
+    cases hx : filterByType s fuel (some (ty, incl)) (backRefs s b src) with
+    | none => rw [hx] at h; simp at h
+    | some x =>
+      cases hy : findInvAux s fuel b (some (ty, incl)) rest with
+      | none => rw [hx, hy] at h; simp at h
+      | some y =>
+        rw [hx, hy] at h
+        simp only [Option.some.injEq] at h; subst h
+        intro t a
+        rw [List.mem_append, filterByType_spec s fuel ty incl _ x hx (t, a), mem_backRefs, ih y hy]
+        constructor
+        · rintro (⟨⟨rfl, h1⟩, h2⟩ | ⟨h1, h2⟩)
+          · exact ⟨List.mem_cons_self, h1, h2⟩
+          · exact ⟨List.mem_cons_of_mem _ h1, h2⟩
+        · rintro ⟨h1, h2, h3⟩
+          cases h1 with
+          | head => exact Or.inl ⟨⟨rfl, h2⟩, h3⟩
+          | tail _ h1 => exact Or.inr ⟨h1, h2, h3⟩
+
+/-- **`find_inverse_references` with any type filter**, whenever the subtype walk returns (needs the
+reverse lookup to be complete) -/
+theorem findInv_filtered_partial (s : Refs) (fuel b ty : Nat) (incl : Bool) (hi : Inv s)
+    (r : Option (List (Nat × Nat))) (h : findInv s fuel b (some (ty, incl)) = some r) :
+    ∀ t a, (t, a) ∈ found r ↔ (R s a t b ∧ Matches s ty incl t) := by
+  unfold findInv at h
+  cases hg : s.inv.get b with
+  | none =>
+    rw [hg] at h; cases h
+    intro t a
+    have hnil : invL s b = [] := by simp [invL, hg]
+    constructor
+    · intro hm; simp [found] at hm
+    · intro hm; have hh := hi.complete a t b hm.1; rw [hnil] at hh; simp at hh
+  | some srcs =>
+    rw [hg] at h
+    simp only [] at h
+    have hl : invL s b = srcs := by simp [invL, hg]
+    cases hf : findInvAux s fuel b (some (ty, incl)) srcs with
+    | none => rw [hf] at h; cases h
+    | some out =>
+      rw [hf] at h
+      simp only [Option.some.injEq] at h; subst h
+      intro t a
+      rw [found_ite, findInvAux_spec s fuel b ty incl srcs out hf]
+      constructor
+      · exact fun hm => hm.2
+      · intro hm; exact ⟨hl ▸ hi.complete a t b hm.1, hm⟩
+
+/-- non-vacuity: a two-level hierarchy on which the walk returns and finds the indirect subtype -/
+example : ∃ s, run empty [.ins 44 47 45, .ins 47 49 45, .ins 1 2 49, .ins 1 3 35] = some s ∧
+    findRefs s 16 1 (some (44, true)) = some (some [(49, 2)]) ∧
+    findInv s 16 2 (some (44, true)) = some (some [(49, 1)]) ∧
+    findRefs s 16 1 (some (44, false)) = some none := by
+  exact ⟨_, rfl, by decide, by decide, by decide⟩
+
 end OpcuaVerif.C28
